@@ -236,6 +236,10 @@ def instances(tier):
                         by_solver=s <= 1, budget=bs))
         out.append(dict(id="%s-step-diag2" % n, cls=n, kind="step", system="diag", shape=[2], steps=1, by_solver=s <= 1, norm_by_solver=s <= 1,
                         budget=bs))
+        if np.asarray(cls.tableau_final).shape[0] == 2:
+            for setting in (True, False):
+                out.append(dict(id="%s-step-scalar-adaptivity-set-%s" % (n, setting), cls=n, kind="step", system="scalar", shape=[1], steps=1,
+                                by_solver=s <= TWO_VAR_MAX_STAGES, norm_by_solver=s <= 2, adaptivity_setting=setting, budget=bs))
         if s <= (1 if not thorough else 2):
             # the full __call__: first stage solve reported as failed, the retry solved exactly - the ACCEPTED step must still not grow |y|
             out.append(dict(id="%s-call-retry-scalar" % n, cls=n, kind="call_retry", shape=[1], budget=bs))
@@ -527,6 +531,9 @@ def _scn_step(c, inst, d):
     if st != "ok":
         c.check("c11.step.constructs", False, info=repr(integ))
         return
+    if inst.get("adaptivity_setting") is not None:
+        # the public adaptivity setting of the integrator is assigned (either value): the step must remain the scheme's own step
+        integ.is_adaptive = bool(inst["adaptivity_setting"])
     rhs = LinearRhs(c, lam, system)
     by_solver = bool(inst.get("by_solver"))
     tt, yy = t, y
